@@ -34,7 +34,7 @@ func main() {
 	dir := flag.String("dir", "/repo", "module directory")
 	pkgPat := flag.String("pkg", ".", "package pattern (relative to dir) the harness joins")
 	hdir := flag.String("harness", "", "directory with harness files to overlay into the package")
-	apiFile := flag.String("api", "/verif/harness/api/verif.go", "harness API source")
+	apiSrc := flag.String("api", "/verif/harness/api", "directory with the harness API package sources")
 	apiDir := flag.String("apidir", "/repo/internal/verif", "virtual directory for the API package")
 	run := flag.String("run", "^Verif", "regexp of harness function names")
 	out := flag.String("out", "", "write JSON result here")
@@ -57,11 +57,17 @@ func main() {
 	os.Setenv("GOPROXY", "off")
 	start := time.Now()
 	overlay := map[string][]byte{}
-	api, err := os.ReadFile(*apiFile)
-	if err != nil {
-		fatal(err)
+	apiFiles, _ := filepath.Glob(filepath.Join(*apiSrc, "*.go"))
+	if len(apiFiles) == 0 {
+		fatal(fmt.Errorf("no API sources in %s", *apiSrc))
 	}
-	overlay[filepath.Join(*apiDir, "verif.go")] = api
+	for _, f := range apiFiles {
+		b, err := os.ReadFile(f)
+		if err != nil {
+			fatal(err)
+		}
+		overlay[filepath.Join(*apiDir, filepath.Base(f))] = b
+	}
 	absPkgDir := filepath.Join(*dir, *pkgPat)
 	var skipped []string
 	if *hdir != "" {
@@ -156,6 +162,7 @@ func main() {
 	mcfg := symgo.Config{MaxDecisions: *maxDec, MaxSteps: *maxSteps, MaxCallDepth: 400, MaxConcretize: *maxConc,
 		SolverTimeout: *timeout, SolverKind: *solver, Trace: *trace, RepoPrefix: repoPrefix, MaxPaths: *maxPaths, MaxWall: *maxWall}
 	m := symgo.NewMachine(prog, mcfg)
+	m.InstallModels()
 	m.Tier = 0
 	if *tier == "thorough" {
 		m.Tier = 1
